@@ -1,5 +1,5 @@
 """C08 - Multi-IP requests get one IP per range, all or nothing."""
-import ipamcheck
+import ipamcheck, plugincheck, plugingen
 
 THEOREMS = ["alloc_ranges_ok", "alloc_ranges_atomic", "rollback_restores"]
 REFUTED = []
@@ -11,8 +11,10 @@ MANIFEST = {
             "any j - leaves a state IDENTICAL to the one before), rollback_restores. Tied to the code by histories with a creation "
             "fault at every index on the real crdIpam vs the model, and by the monitor mon_ranges on the implementation's dumps.",
     "note": "trusted: Coq kernel (no axioms); fake API server; requested ranges pairwise disjoint (the property's quantifier); a "
-            "failure of a rollback delete is a second fault and outside the quantifier; bind-level reporting order is covered by the "
-            "plugin-level checks",
+            "failure of a rollback delete is a second fault and outside the quantifier. Plugin level: the IPs Bind reports (and "
+            "writes into the pod's annotation) are one per requested range list IN REQUEST ORDER also when some lists are already "
+            "owned by the key (monitor bind_ranges_in_order on the real FloatingIPPlugin, incarnation scenarios incl. a request that "
+            "grows in front of an owned range; Bind's result list is compared with Model/Plugin.v bind_section step by step)",
 }
 
 def run(ctx):
@@ -24,6 +26,35 @@ def run(ctx):
     kinds = ["alloc_ranges"] * 8 + ["alloc_in_subnet"] * 2 + ["release"] * 2 + ["admin_reserve", "watch_deliver", "configure",
                                                                                  "release_ips", "by_key_ranges"]
     ipamcheck.run(ctx, "C08", "C08", THEOREMS, REFUTED, kinds=kinds)
+    # plugin level: what Bind reports for a multi-range request
+    plugincheck.run(ctx, "C08", [], [], mon_c08, nrandom=(40, 400), per_config=(1, 2), fixed=False)
+
+
+def mon_c08(h, o, nwf, keys):
+    """every successful bind of a pod with requested range lists reports one IP per list, the i-th inside the i-th list; a bind
+    that fails on the creation of a store object leaves the key's IPs as they were (all or nothing)"""
+    out = []
+    specs = plugincheck.spec_index(h)
+    steps = (o.get("steps") or [])[:nwf]
+    prev = None
+    for si, (op, st) in enumerate(zip(h["ops"], steps)):
+        d = st.get("dump")
+        if d is None:
+            break
+        if prev is not None and op["op"] == "bind" and st.get("res") != "skipped":
+            sp = plugincheck.lister_spec(prev, specs, op["ns"], op["name"])
+            if sp is not None and sp.get("Ranges"):
+                if st.get("res") == "ok":
+                    ips = st.get("ips") or []
+                    ok = len(ips) == len(sp["Ranges"]) and all(plugincheck.in_range_list(rl, x) for rl, x in zip(sp["Ranges"], ips)) and \
+                        len(set(ips)) == len(ips)
+                    out.append((plugincheck.lit(ok), si, "bind_ranges_in_order", []))
+                elif any(c[0] == "create" and c[2] for c in st.get("calls") or []):
+                    key = plugingen.pod_key(sp)
+                    same = sorted(e[0] for e in prev["alloc"] if e[1] == key) == sorted(e[0] for e in d["alloc"] if e[1] == key)
+                    out.append((plugincheck.lit(same), si, "bind_all_or_nothing", []))
+        prev = d
+    return out
 
 
 def replay(ctx, path):
